@@ -53,6 +53,32 @@ fn throwers() -> Vec<Stmt> {
 /// Build the program for a chain (outermost link first) with the failing statement at the bottom.
 /// Returns (statements of main, modules).
 fn build(chain: &[Link], bottom: Bottom, fail: Leaf, wrap_caught: bool) -> (Vec<Stmt>, BTreeMap<String, ModuleSource>) {
+    build_with_history(chain, bottom, fail, wrap_caught, None)
+}
+
+const HISTORIES: usize = 5;
+
+/// an exception that was raised and completely handled before the failing statement runs
+fn history(kind: usize) -> Vec<Stmt> {
+    let catch = |k: usize| Some(("h".to_string(), vec![pad(k)]));
+    match kind {
+        0 => vec![st(StmtKind::Try(vec![pad(60), st(StmtKind::Throw(s("handled")))], catch(61), None))],
+        1 => vec![st(StmtKind::Try(vec![expr_stmt(call(var("thr1"), vec![]))], catch(62), None))],
+        2 => vec![st(StmtKind::Try(vec![expr_stmt(index(Expr::VecLit(vec![]), num(0.0)))], catch(63), None))],
+        3 => vec![st(StmtKind::Try(vec![st(StmtKind::Try(vec![st(StmtKind::Throw(s("handled after finally")))], None, Some(vec![pad(64)])))], catch(65), None))],
+        _ => vec![st(StmtKind::For("h".into(), Expr::VecLit(vec![num(1.0), num(2.0)]), vec![st(StmtKind::Try(vec![st(StmtKind::If(bin(BinOp::Eq, var("h"), num(1.0)), vec![st(StmtKind::Throw(s("handled in loop")))], None)), pad(66)], catch(67), None))]))],
+    }
+}
+
+/// `hist` = (kind, position): position 0 is the script's top level, k in 1..=chain.len() the body of
+/// chain[k-1], chain.len()+1 the module function / module body at the bottom.
+fn build_with_history(chain: &[Link], bottom: Bottom, fail: Leaf, wrap_caught: bool, hist: Option<(usize, usize)>) -> (Vec<Stmt>, BTreeMap<String, ModuleSource>) {
+    let hist_at = |pos: usize| -> Vec<Stmt> {
+        match hist {
+            Some((kind, p)) if p == pos => history(kind),
+            _ => vec![],
+        }
+    };
     let mut modules = BTreeMap::new();
     let mut defs: Vec<Stmt> = vec![user_err()];
     defs.extend(throwers());
@@ -61,6 +87,7 @@ fn build(chain: &[Link], bottom: Bottom, fail: Leaf, wrap_caught: bool) -> (Vec<
         Bottom::Here => leaf_stmts(fail),
         Bottom::ModuleFunction => {
             let mut body = vec![pad(70)];
+            body.extend(hist_at(chain.len() + 1));
             body.extend(leaf_stmts(fail));
             let mut m = vec![pad(71), user_err()];
             m.extend(throwers());
@@ -72,6 +99,7 @@ fn build(chain: &[Link], bottom: Bottom, fail: Leaf, wrap_caught: bool) -> (Vec<
         Bottom::ModuleBody => {
             let mut m = vec![pad(72), pad(73), user_err()];
             m.extend(throwers());
+            m.extend(hist_at(chain.len() + 1));
             m.extend(leaf_stmts(fail));
             modules.insert("mod_body".to_string(), ModuleSource { program: Some(m), compile_error: false });
             vec![st(StmtKind::Import("mod_body".into(), None))]
@@ -80,6 +108,7 @@ fn build(chain: &[Link], bottom: Bottom, fail: Leaf, wrap_caught: bool) -> (Vec<
     // wrap bottom-up
     for (k, link) in chain.iter().enumerate().rev() {
         let mut body = vec![pad(k * 10 + 1)];
+        body.extend(hist_at(k + 1));
         body.extend(action);
         body.push(pad(k * 10 + 2));
         let (def, callexpr): (Vec<Stmt>, Expr) = match link {
@@ -125,6 +154,7 @@ fn build(chain: &[Link], bottom: Bottom, fail: Leaf, wrap_caught: bool) -> (Vec<
     }
     let mut main = defs;
     main.push(pad(100));
+    main.extend(hist_at(0));
     if wrap_caught {
         main.push(st(StmtKind::Try(action, Some(("e".into(), vec![print_stmt(call(var("type"), vec![var("e")]))])), None)));
     } else {
@@ -152,8 +182,37 @@ fn chains(max_depth: usize, links: &[Link]) -> Vec<Vec<Link>> {
     all
 }
 
-fn runtime_cases(thorough: bool) -> Vec<Case> {
+/// the failing statement runs after an earlier exception was handled in one of the active frames
+fn after_handled_cases(thorough: bool) -> Vec<Case> {
     let mut out = Vec::new();
+    let fails: Vec<Leaf> = if thorough { FAILS.to_vec() } else { vec![Leaf::ThrowStr, Leaf::TypeErr, Leaf::NameErr, Leaf::Deep(1)] };
+    for chain in chains(if thorough { 3 } else { 2 }, &LINKS) {
+        if thorough && chain.len() == 3 && (chain[0] == chain[1] || chain[1] == chain[2]) {
+            continue;
+        }
+        for &fail in &fails {
+            for bottom in [Bottom::Here, Bottom::ModuleFunction, Bottom::ModuleBody] {
+                if bottom != Bottom::Here && chain.len() > 1 {
+                    continue;
+                }
+                let positions = chain.len() + if bottom == Bottom::Here { 1 } else { 2 };
+                for pos in 0..positions {
+                    for kind in 0..HISTORIES {
+                        let (prog, modules) = build_with_history(&chain, bottom, fail, false, Some((kind, pos)));
+                        let mut c = Case::new("R_uncaught_trace_after_handled_exception", prog);
+                        c.modules = modules;
+                        c.opts = CmpOpts { trace: true, kind: true };
+                        out.push(c);
+                    }
+                }
+            }
+        }
+    }
+    out
+}
+
+fn runtime_cases(thorough: bool) -> Vec<Case> {
+    let mut out = after_handled_cases(thorough);
     let depth = if thorough { 4 } else { 3 };
     let links: Vec<Link> = if thorough { LINKS.to_vec() } else { LINKS.to_vec() };
     for chain in chains(depth, &links) {
@@ -378,7 +437,7 @@ pub fn run(ctx: &Ctx) -> Report {
     mcheck::fill_report(
         &mut report,
         &stats,
-        "R: every call chain of depth 0-3/4 over link kinds {function, method, static method, lambda, constructor, map callback, reduce callback, fiber body} with the failing statement (12 kinds: throws of 4 value kinds, 6 failing built-ins, throwing callees) at the bottom, in place, inside a module function or as a module body; one statement per line with padding so every line differs. Uncaught variant: class, text (where the model defines it), error kind and the full trace (one entry per active call, innermost first; library frames by name only) must equal M-eval's; caught variant: the handler sees the same class. Plus caught==uncaught on the implementation for 26 failing statements including host natives of every ErrorKind, and compile-error lines for a stray token before every statement. non-trivial = a trace of at least two entries, or output.",
+        "R: every call chain of depth 0-3/4 over link kinds {function, method, static method, lambda, constructor, map callback, reduce callback, fiber body} with the failing statement (12 kinds: throws of 4 value kinds, 6 failing built-ins, throwing callees) at the bottom, in place, inside a module function or as a module body; one statement per line with padding so every line differs. Uncaught variant: class, text (where the model defines it), error kind and the full trace (one entry per active call, innermost first; library frames by name only) must equal M-eval's; caught variant: the handler sees the same class. The same with an earlier, completely handled exception (5 shapes: thrown and caught in place, thrown by a callee, raised by a built-in, caught after passing a finally block, caught in a loop) placed in each active frame of every chain up to depth 2/3 before the failing statement. Plus caught==uncaught on the implementation for 26 failing statements including host natives of every ErrorKind, and compile-error lines for a stray token before every statement. non-trivial = a trace of at least two entries, or output.",
         json!({"chain_depth": if thorough { 4 } else { 3 }, "link_kinds": LINKS.len(), "failing_statements": FAILS.len()}),
     );
     let (n_ceq, _bad) = caught_equals_uncaught(ctx, &mut report);
@@ -387,7 +446,7 @@ pub fn run(ctx: &Ctx) -> Report {
     report.cov("compile_error_line_cases", json!(n_lines));
     report.assumptions = vec![
         "frames of the library written in the language itself are matched by function name and position only".into(),
-        "exceptions that pass through finally blocks are outside C17's alphabet".into(),
+        "uncaught exceptions that pass through finally blocks are outside C17's alphabet".into(),
     ];
     record_known(&mut report, &active, &stats.attributed);
     report.violations.extend(stats.violations);
